@@ -29,7 +29,9 @@ HEADER = c03.HEADER.replace("(lambda (e) (k (cons 'err (%class e))))",
 # ------------------------------------------------------------------------------------------ fold-aimed programs
 CONSTS = ["0", "1", "-1", "2", "3", "7", "-3", "10", "4611686018427387903", "-4611686018427387904", "3037000500",
           "#t", "#f", "#\\a", "'a", "'()", "\"s\"", "1/2", "100000000000000000000"]
-FLO = ["2.5", "-0.0", "1e300"]
+# no inexact zero: (quotient 1 0.) is "an error" in R7RS and dies with SIGFPE on every build (a C01 matter, not a
+# difference between builds)
+FLO = ["2.5", "-0.5", "1e300"]
 FOLD_OPS = ["+", "-", "*", "/", "quotient", "remainder"]
 OTHER_OPS = ["<", "=", "car", "vector-ref", "string-length", "char->integer", "not", "eq?", "length", "cons", "abs",
              "modulo", "expt", "exact->inexact"]
@@ -182,6 +184,8 @@ def fold_programs(rng, tier):
 
     def add(family, site, ctx, main, in_model=True):
         nonlocal n
+        if "let-syntax" in main:
+            in_model = False                      # the interpreter has no macros: build-vs-build only
         out.append(mk("f%d" % n, family, site, ctx, main, in_model))
         n += 1
 
@@ -254,6 +258,15 @@ def check_simplify(rep, tier, seed):
                                                               and e[0] not in ("order-sensitive", "budget"))]
     r1, procs1 = c03.run_on(plain, todo, header=HEADER)
     r2, procs2 = c03.run_on(nosimp, todo, header=HEADER)
+    # a process death is blamed on the last announced case, which is off by one when the death happens while the
+    # NEXT form is being compiled (folding runs at compile time): re-run every affected case alone on both builds
+    redo = [p for p in todo if any(r.get(p.id) is None or r[p.id].status in ("crash", "missing") for r in (r1, r2))]
+    if redo:
+        rep.extra["rerun_alone"] = len(redo)
+        for build, r in ((plain, r1), (nosimp, r2)):
+            rr, _ = C.run_batches(build, c03.IMPORTS, HEADER, [(p.id, p.case_text()) for p in redo], batch=1,
+                                  timeout=60, heap="16M/256M")
+            r.update(rr)
     ndiff = 0
     for p in todo:
         a, b = r1.get(p.id), r2.get(p.id)
@@ -266,13 +279,18 @@ def check_simplify(rep, tier, seed):
             continue
         ta = a.text.strip() if a.status == "ok" else "<%s>" % a.status
         tb = b.text.strip() if b.status == "ok" else "<%s>" % b.status
-        if ta == tb and a.status == "ok":
-            if p.exp is not None:
-                rep.count("also_agree_with_interpreter" if agrees(p, a) else "both_builds_differ_from_interpreter")
+        if ta == tb:
+            if a.status != "ok":
+                rep.count("crash_on_both_builds")
+                rep.extra.setdefault("crash_on_both_examples", [])
+                if len(rep.extra["crash_on_both_examples"]) < 5:
+                    rep.extra["crash_on_both_examples"].append(p.model_text()[:300])
+            elif p.exp is not None:
+                rep.count("builds_agree_and_match_interpreter" if agrees(p, a) else "builds_agree_interpreter_stricter(ill-typed operands)")
                 if not agrees(p, a):
-                    rep.extra.setdefault("both_differ_examples", [])
-                    if len(rep.extra["both_differ_examples"]) < 5:
-                        rep.extra["both_differ_examples"].append({"program": p.model_text()[:500], "observed": ta[:300],
+                    rep.extra.setdefault("interpreter_stricter_examples", [])
+                    if len(rep.extra["interpreter_stricter_examples"]) < 5:
+                        rep.extra["interpreter_stricter_examples"].append({"program": p.model_text()[:500], "observed": ta[:300],
                                                                   "expected": M.show_obs(p.exp[2])})
             continue
         wrong = "unknown"
